@@ -141,7 +141,4 @@ Definition visible (a : marr O) : marr O := tmap (vis1 O) a.
 (* two masked tensors that differ only in what is stored at missing slots *)
 Definition agree (a a' : marr O) : Prop := visible a = visible a'.
 Definition agree_l (l l' : list (cell O)) : Prop := map (vis1 O) l = map (vis1 O) l'.
-(* the masks of a body are uniform over the coordinate axis (every constructor stacks the confidence mask D times) *)
-Definition uniform (D : nat) (l : list (cell O)) : Prop :=
-  forall i d, d < D -> snd (rd O l (i * D + d)) = snd (rd O l (i * D)).
 End Visible.
